@@ -94,6 +94,16 @@ def gen_cases(tier, seed):
                                 continue
                             cases.append({"dn": dn, "p": {"w": w, "dow": wi, "y": 2021, "m": 1, "d": 1}, "cn": cn, "h": h, "mi": mi, "o": order, "c": conn,
                                           "ts": C.iso(REFS[hsh % len(REFS)])})
+    # the rarer connecting words ('tomorrow around 5pm', 'morgen gegen 17 uhr') with every day form and four clocks: fixed cases
+    for dn in G.DAY_FORMS:
+        for conn in G.COMPOSE_CONN_MORE:
+            for cn, h, mi in (("H Uhr", 17, 0), ("H:MM", 9, 15), ("ham", 17, 0), ("HH:MM", 17, 30)):
+                for order in ("day-clock", "clock-day"):
+                    hsh = zlib.crc32(("%s|%s|%s|%s" % (dn, conn, cn, order)).encode("utf-8"))
+                    if tier != "thorough" and (hsh + seed) % 4:
+                        continue
+                    p = {"y": 1990 + hsh % 40, "m": 1 + (hsh >> 6) % 12, "d": 1 + (hsh >> 10) % 28, "dow": (hsh >> 15) % 7}
+                    cases.append({"dn": dn, "p": p, "cn": cn, "h": h, "mi": mi, "o": order, "c": conn, "ts": C.iso(REFS[(hsh >> 18) % len(REFS)])})
     r.shuffle(cases)
     return cases
 
@@ -111,7 +121,7 @@ def run_case(case, ctx):
     else:
         fn, fl = G.CLOCK[case["cn"]]
         clock = fn(case["h"], case["mi"])
-    conn = G.COMPOSE_CONN[case["c"]]
+    conn = G.COMPOSE_CONN.get(case["c"]) or G.COMPOSE_CONN_MORE[case["c"]]
     if case["o"] == "day-clock":
         text = day + conn + clock
     else:
